@@ -1,11 +1,11 @@
 SPECIFICATION Spec
 CONSTANTS
-  MaxFuncs = 0
+  MaxFuncs = 1
   MaxStmts = 2
-  FuncKinds = {"func"}
-  BodyKinds = {"call"}
-  StmtKinds = {"call", "cmd", "assign", "mcall1", "mcall2", "if", "for", "switch", "defer", "var", "lamexpr", "lamblk", "funclit", "fwd"}
-  GapSet = "g3"
+  FuncKinds = {"func", "method"}
+  BodyKinds = {"call", "swtag", "swbare", "swbare2", "selsend"}
+  StmtKinds = {"call", "swtag", "swbare", "swbare2", "selsend"}
+  GapSet = "g2"
   CaseGapSet = "g1"
   FileKind = "xgo"
   RelBases = {"same"}
